@@ -1,5 +1,5 @@
 import EdpVerif.Impl.Control
-import EdpVerif.Generated.Misc
+import EdpVerif.Generated.MiscC08
 /-
 Model of the constructor functions of `impl ControlMessage` (control.rs: `link`, `unlink`, `send`, `exit`, `exit2`,
 `reg_send`, `group_leader`, `send_sender`, `monitor_p`, `demonitor_p`, `monitor_p_exit`, `payload_exit`,
